@@ -13,7 +13,8 @@ EXPLANATION = (
     "covered, from every entry point (parse_feature, parse_rule, parse_scenario, parse_steps, parse_tags). E7 (structural): a "
     "re-used Parser object starts clean (reset() re-initialises every parsing field, before every line loop). E1: no "
     "internal exception (attribute access on None, index into an empty or possibly empty list, failing assert, missing "
-    "key) on any path; E3: every exception that leaves is a ParserError; E5: the wrappers attach the filename; "
+    "key) on any path; E2: an And/But step that is the first step of its statement (no background steps) is never "
+    "accepted with a step type left over from an earlier statement (the catalogued fault is rejected); E3: every exception that leaves is a ParserError; E5: the wrappers attach the filename; "
     "E4 (structural): every ParserError construction passes the current line; E6: no while loop and no call cycle "
     "except action_table<->action_steps. A counterexample is an abstract sentence such as 'entry=parse_rule: RULE_KW'.")
 NOT_DECIDED = ("that the error is reported at the injected line for a concrete injected fault (covered only through E4: "
@@ -22,7 +23,8 @@ NOT_DECIDED = ("that the error is reported at the injected line for a concrete i
 
 
 def t_entry(chk, ix, entry, reuse=False):
-    rules_parser.check_machine(chk, ix, entry, ("E1", "E3", "E5"), tier=chk.tier, reuse=reuse)
+    rules = ("E1", "E3", "E5") if entry == "parse_tags" else ("E1", "E2", "E3", "E5")
+    rules_parser.check_machine(chk, ix, entry, rules, tier=chk.tier, reuse=reuse)
 
 
 def t_struct(chk, ix):
@@ -37,4 +39,5 @@ def run(chk, ix, tier):
     run_parallel(chk, tasks)
     chk.rules.pop("P3", None)
     chk.require_instances("E1", 5)
+    chk.require_instances("E2", 4)
     chk.require_instances("E4", 8)
